@@ -100,8 +100,17 @@ fn one(line: &str) -> String {
     for op in ops {
         let t: Vec<&str> = op.split(':').collect();
         match t[0] {
-            "F" => { if let Some(j) = inj.as_mut() { do_fake(j, t[1].parse().unwrap()); out.push("F".to_string()); } else { out.push("F-noinj".into()); } }
-            "G" => { if let Some(j) = inj.as_mut() { do_fake_b(j, t[1].parse().unwrap()); out.push("F".to_string()); } else { out.push("F-noinj".into()); } }
+            "F" | "G" => { if let Some(j) = inj.as_mut() {
+                    // an installation (first or repeated) only ever writes branches: a trampoline and the entry patch.  Bytes that are not a branch,
+                    // flushed while the injector lives, mean the function was taken back to its original code in between (un-faked for a while)
+                    crate::interpose::reset(); crate::interpose::RECORD.store(true, SeqCst);
+                    if t[0] == "F" { do_fake(j, t[1].parse().unwrap()) } else { do_fake_b(j, t[1].parse().unwrap()) }
+                    crate::interpose::RECORD.store(false, SeqCst);
+                    let mut bad = 0;
+                    for k in 0..crate::interpose::len() { let e = crate::interpose::get(k);
+                        if e.kind == b'F' && e.n >= 2 && !(e.content[0] == 0xE9 || (e.content[0] == 0x48 && e.content[1] == 0xB8)) { bad += 1; } }
+                    out.push(if bad == 0 { "F".to_string() } else { format!("F!{bad}") });
+                } else { out.push("F-noinj".into()); } }
             "A" => out.push(do_await(t[1].parse().unwrap())),
             "T" => { let i: usize = t[1].parse().unwrap(); out.push(std::thread::spawn(move || do_await(i)).join().unwrap()); }
             // X:<i> — ANOTHER thread runs a whole lifetime of its own on async fn i (new injector, the second fake, one await, drop).  While this
